@@ -63,7 +63,7 @@ def _gen_case_a(seed: int, tier: str, index: int) -> Dict[str, Any]:
         t += rng.choice([0.0, 0.002, 0.05, 0.3, 1.0, 3.0]) if not long_session else rng.choice([0.25, 0.4])
         kind = rng.choices(["statp", "set1", "refresh"], [6, 2, 2] if not long_session else [8, 1, 0.3])[0]
         if kind == "statp":
-            cnt = rng.choice([0, 1, 1, 2, 3, 8, 30])
+            cnt = rng.choice([0, 1, 1, 2, 3, 8, 30]) if rng.random() > 0.04 else rng.choice([200, 226, 240, 255])     # up to the one-byte maximum
             recs = []
             for _ in range(cnt):
                 pos = rng.choice(hot) if rng.random() < 0.4 else rng.choice([0, 1, 1021, 1022, rng.randrange(0, 1023)])
@@ -71,6 +71,9 @@ def _gen_case_a(seed: int, tier: str, index: int) -> Dict[str, Any]:
                 recs.append([pos, val])
             if cnt >= 2 and rng.random() < 0.3:
                 recs[-1][0] = recs[0][0]         # repeated position inside one message
+            prev = [o for o in plan if o["op"] == "statp" and o["recs"]]
+            if prev and rng.random() < 0.12:
+                recs = [list(r) for r in prev[-1]["recs"]]      # the spa reports the very same change again (byte-identical message)
             plan.append({"op": "statp", "t": round(t, 4), "recs": recs})
         elif kind == "set1":
             val = (val + 1) % 65536
@@ -111,6 +114,8 @@ async def scenario(world: WorldA) -> None:
                 sent_msgs.append(changes)
                 if not changes:
                     res.probe("empty_message")
+                if len(changes) >= 200:
+                    res.probe("message_with_200_or_more_records")
                 if len({p for p, _ in changes}) < len(changes):
                     res.probe("repeated_position_in_message")
             elif op["op"] == "set1":
@@ -328,7 +333,7 @@ ASSUMPTIONS = [
     "arrival order is the order of delivery to the client's endpoint (a duplicated datagram is a second arrival)",
     "if the connection is torn down mid-run (rare; probe 'reconnected') only prefix consistency is demanded of the abandoned one",
 ]
-PROBES = ["more_than_a_full_sequence_cycle_of_messages", "two_or_more_messages", "empty_message", "repeated_position_in_message", "duplicate_datagram_arrived",
+PROBES = ["message_with_200_or_more_records", "more_than_a_full_sequence_cycle_of_messages", "two_or_more_messages", "empty_message", "repeated_position_in_message", "duplicate_datagram_arrived",
           "refresh_over_partial", "message_during_handshake", "one_byte_change"]
 N_QUICK = 1200
 
